@@ -263,7 +263,7 @@ def e2e_elemwise(chunkss, light=False):
             _same("astype(bool)", dx.astype(bool), x.astype(bool), info)
             _same("clip", da.clip(dx, 2, 7), np.clip(x, 2, 7), info)
             _same("negative", -dx, -x, info)
-            _same("x+x.T-free", dx + dx, x + x, info)
+            _same("x+x", dx + dx, x + x, info)
             return
         x, y = xs[0], xs[1]
         dx, dy = ds[0], ds[1]
@@ -321,8 +321,9 @@ def _axis_chunks(e, tag, maxn, CH, zero=False):
     return tuple(e.int(f"c{tag}_{i}", 0 if zero else 1, CH) for i in range(n))
 
 
-def declare_ops(e, ndims, maxn, DMAX, CH):
-    """broadcast-compatible operands; axes are numbered from the right.  returns (chunks per operand, dims per axis)"""
+def declare_ops(e, ndims, maxn, DMAX, CH, zero=False):
+    """broadcast-compatible operands; axes are numbered from the right.  returns (chunks per operand, dims per axis).
+    A broadcast (size-1) axis always has the single chunk (1,); zero=True allows empty chunks inside the other axes."""
     nd = builtins.max(ndims)
     D = [e.int(f"D{k}", 0, DMAX) for k in range(nd)]
     per = [[None] * m for m in ndims]
@@ -334,7 +335,7 @@ def declare_ops(e, ndims, maxn, DMAX, CH):
                 e.assume(lambda: D[k] != 1)      # (a size-1 axis of a size-1 dimension is the non-broadcast case)
                 per[o][k] = (1,)
             else:
-                ch = _axis_chunks(e, f"{o}_{k}", maxn, CH)
+                ch = _axis_chunks(e, f"{o}_{k}", maxn, CH, zero)
                 e.assume(lambda: _tot(ch) == D[k])
                 per[o][k] = ch
                 nfull += 1
@@ -344,8 +345,8 @@ def declare_ops(e, ndims, maxn, DMAX, CH):
     return ops, D
 
 
-def ops_from_model(model, ndims, maxn, DMAX, CH):
-    return declare_ops(NativeEngine(model), ndims, maxn, DMAX, CH)[0]
+def ops_from_model(model, ndims, maxn, DMAX, CH, zero=False):
+    return declare_ops(NativeEngine(model), ndims, maxn, DMAX, CH, zero)[0]
 
 
 # ---------------------------------------------------------------- (1) broadcast_shapes
@@ -415,32 +416,9 @@ def mk_common(k, maxn, DMAX, CH, zero=False):
 
     def e2e(model):
         bds = setup(NativeEngine(model))[0]
-        if builtins.any(c == 0 for b in bds for c in b) and _tot(bds[0]) != 0:
-            # empty chunks inside a non-empty axis cannot be produced by from_array; build them by concatenation
-            return _e2e_zero(bds)
         e2e_elemwise([(tuple(b),) for b in bds])
 
     return Obligation(f"common_blockdim[k={k},chunks<={maxn},dim<={DMAX}{',empty-chunks' if zero else ''}]", setup, run, patches=_patches, e2e=e2e, e2e_every=5)
-
-
-def _e2e_zero(bds):
-    xs, ds = [], []
-    for o, b in enumerate(bds):
-        x = _mk((sum(b),), o)
-        parts, pos = [], 0
-        for c in b:
-            parts.append(da.from_array(x[pos:pos + c], chunks=(builtins.max(c, 1),)))
-            pos += c
-        d = da.concatenate(parts)
-        if d.chunks != (tuple(b),):
-            return
-        xs.append(x)
-        ds.append(d)
-    r, w = ds[0], xs[0]
-    for d, x in zip(ds[1:], xs[1:]):
-        r, w = r + d, w + x
-    _same("x+y with empty chunks", r, w, f"chunks={bds}")
-    _blocks_ok("x+y with empty chunks", r, f"chunks={bds}")
 
 
 # ---------------------------------------------------------------- (3) unify_chunks
@@ -486,11 +464,11 @@ class RecArray(da.Array):
         return f"RecArray({self._rn}, {self._rc})"
 
 
-def mk_unify(ndims, maxn, DMAX, CH, every=7):
+def mk_unify(ndims, maxn, DMAX, CH, every=7, zero=False):
     nd = builtins.max(ndims)
 
     def setup(e):
-        ops, D = declare_ops(e, ndims, maxn, DMAX, CH)
+        ops, D = declare_ops(e, ndims, maxn, DMAX, CH, zero)
         return ops, D
 
     def run(e, ops, D):
@@ -535,15 +513,15 @@ def mk_unify(ndims, maxn, DMAX, CH, every=7):
                 e.check(lambda: _tot(got) == d, "an operand changed its shape in unify_chunks")
 
                 def aligned():
-                    full = d == bdim(k)
-                    return (full & _teq(got, cc)) | (_not(full) & _is_one(got))
+                    # blocks line up one to one, or the operand has the single one-element block that blockwise + NumPy broadcast
+                    return ((d == bdim(k)) & _teq(got, cc)) | _is_one(got)
                 e.check(aligned, "after unify_chunks an operand axis is neither chunked like the common chunks nor a single size-1 broadcast chunk")
         return ([chunkss[k] for k in range(nd)], [a.chunks for a in out])
 
     def e2e(model):
-        e2e_elemwise(ops_from_model(model, ndims, maxn, DMAX, CH))
+        e2e_elemwise(ops_from_model(model, ndims, maxn, DMAX, CH, zero))
 
-    return Obligation(f"unify_chunks[ndims={list(ndims)},chunks<={maxn},dim<={DMAX}]", setup, run, patches=_patches, e2e=e2e, e2e_every=every)
+    return Obligation(f"unify_chunks[ndims={list(ndims)},chunks<={maxn},dim<={DMAX}{',empty-chunks' if zero else ''}]", setup, run, patches=_patches, e2e=e2e, e2e_every=every)
 
 
 # ---------------------------------------------------------------- (4) broadcast_chunks
@@ -854,12 +832,14 @@ def obligations(tier):
             obs.append(mk_bshape(k, 3, 9))
         obs.append(mk_common(2, 4, 6, 5))
         obs.append(mk_common(3, 3, 6, 5))
-        obs.append(mk_common(2, 4, 6, 3, zero=True))
-        obs.append(mk_common(3, 3, 4, 3, zero=True))
-        for ndims, maxn, dmax, ev in (((1, 1), 3, 5, 1), ((2, 1), 3, 4, 7), ((1, 2), 3, 4, 7), ((2, 2), 3, 4, 11), ((1, 1, 1), 3, 5, 7), ((2, 2, 1), 2, 4, 11),
-                                      ((2, 1, 2), 2, 3, 11), ((2, 2, 2), 2, 3, 31)):
+        obs.append(mk_common(2, 3, 6, 3, zero=True))
+        obs.append(mk_common(3, 3, 3, 2, zero=True))
+        for ndims, maxn, dmax, ev in (((1, 1), 3, 5, 1), ((2, 1), 3, 4, 7), ((1, 2), 3, 4, 7), ((2, 2), 3, 4, 11), ((1, 1, 1), 3, 5, 7), ((2, 2, 1), 2, 3, 11),
+                                      ((2, 1, 2), 2, 3, 11), ((2, 2, 2), 2, 2, 11)):
             obs.append(mk_unify(ndims, maxn, dmax, 5, ev))
-        for ndims, maxn, dmax in (((1, 1), 3, 4), ((2, 1), 3, 4), ((2, 2), 2, 3), ((1, 1, 1), 3, 4), ((2, 2, 1), 2, 3)):
+        obs.append(mk_unify((1, 1), 3, 4, 3, 3, zero=True))
+        obs.append(mk_unify((2, 1), 2, 3, 3, 7, zero=True))
+        for ndims, maxn, dmax in (((1, 1), 3, 4), ((2, 1), 2, 3), ((2, 2), 2, 2), ((1, 1, 1), 3, 3), ((2, 2, 1), 1, 3)):
             obs.append(mk_bchunks(ndims, maxn, dmax, 4))
         for p in PATTERNS:
             obs.append(mk_blockwise(p, 3 if "k" in p else 4))
@@ -867,5 +847,5 @@ def obligations(tier):
             obs.append(mk_blockwise(p, 3, ints=True))
         obs.append(mk_broadcast_to(1, 3, 4, 2, True))
         obs.append(mk_broadcast_to(2, 3, 3, 1, True))
-        obs.append(mk_broadcast_to(2, 2, 3, 2, False))
+        obs.append(mk_broadcast_to(2, 2, 2, 2, False))
     return obs
